@@ -44,12 +44,34 @@ PROPS = {
         oracles=[],
         assumptions=["eq_with_epsilon is characterised with the rounded float subtraction the code performs"],
     ),
+    "C15": dict(
+        streams=[("capi", ["debug"])],
+        extras=["capi_profiles"],
+        translators=["abi"],
+        assumptions=["theorem hypothesis n < 2^32; the ABI crossing itself (calling convention, struct layout) is exercised by the C driver, not proved"],
+    ),
+    "C16": dict(
+        streams=[("capi", ["debug"])],
+        extras=["capi_asan"],
+        assumptions=["memory safety, leaks and data races are runtime behaviour outside the Gallina model: covered by the AddressSanitizer/LeakSanitizer multi-threaded replay only (partial)"],
+    ),
+    "C17": dict(
+        streams=[],
+        translators=["abi"],
+        extras=["capi_headers"],
+        assumptions=["the Go toolchain is absent: go-kodama is covered at the text level (translator) and through its header copy compiled into the C driver"],
+    ),
     "C13": dict(
         streams=[SHAPE],
         oracles=[dict(name="shape_sweep", profiles=["debug", "release"])],
         assumptions=["theorem hypothesis n < 2^32 (beyond that the release-mode product wraps; such n need >= 32 GiB of scratch and cannot be allocated here)"],
     ),
 }
+
+
+def run_extra(name, seed, tier):
+    import extras
+    return getattr(extras, name)(seed, tier)
 
 
 def run_translator(name):
